@@ -118,6 +118,8 @@ Inductive ev :=
 | ELoopN (i : string) (lo hi : term) (body : list ev)   (* for i := lo; i < hi; i++ *)
 | ELoopWhile (c : cond) (body : list ev)         (* any other for loop *)
 | EBreak                                          (* break / continue: ends the iteration *)
+| EAssume (c : cond)                      (* emitted only right after a loop that can only be left through
+                                             its condition: paths on which c is false do not exist *)
 | ESetLen (x : string) (t : term)         (* x := make([]T, t) / fixed-size array / integer assignment *)
 | EReslice (x : string) (k : term)        (* x = x[k:] *)
 | EHavoc (x : string) (o : string)        (* any other assignment: x := oracle entry o *)
@@ -213,6 +215,7 @@ Section Exec.
                    | _ => loop_out e (run_list (one call) body e)
                    end)
     | EBreak => [Broke]
+    | EAssume c => match ceval c e with Some false => [] | _ => [Cont e] end
     | ESetLen x t => [Cont (upd e x (teval t e))]
     | EReslice x k =>
         if (0 <=? teval k e) && (teval k e <=? e x)
